@@ -7,16 +7,16 @@ TECH = 'CBMC code contracts (goto-instrument --dfcc enforce/replace, loop contra
 
 CLAIMS = {
  'C03': dict(cat='proof', ref='DESIGN.md section 4, C03',
-   text='doubles_equal is proved against the statement (NaN equals nothing; non-negative tolerance: same value incl. same infinity, or |d1-d2| <= tolerance) for all 2^192 operand triples; the check entry points are proved where listed in the evidence. Macro expansions in the user TU are undecided.',
+   text='doubles_equal is proved against the statement (NaN equals nothing; non-negative tolerance: same value incl. same infinity, or |d1-d2| <= tolerance) for all 2^192 operand triples; the check entry points are proved where listed in the evidence (string predicates modulo the C13 primitives, of which contains/equalsNoCase/containsNoCase are bounded stand-ins). Macro expansions in the user TU are undecided.',
    note='trusted: IEEE-754 as encoded by CBMC; seam contracts of PlatformSpecificIsNan/IsInf/Fabs (C library meaning); emitter rules; see evidence.assumptions'),
  'C05': dict(cat='proof', ref='DESIGN.md section 4, C05',
    text='size arithmetic of tracked allocations proved wrap-free or rejecting for all 2^64 sizes; block layout (user bytes, guard bytes, accounting node inside the allocation, aligned, non-overlapping) proved for both layouts with symbolic sizes; NULL from the allocator leaves the table untouched.',
    note='trusted: allocator seam returns NULL or a fresh block of the requested size (NULL above 2^40); table summary contract (proved in C04); emitter rules'),
  'C13': dict(cat='proof', ref='DESIGN.md section 4, C13',
-   text='the C-library-like primitives are proved equal to their textbook definition for all NUL-terminated strings in objects of any size up to 2^40 bytes (loop contracts, ghost index); object methods as listed in the evidence; buffer give-back undecided where temporaries occur (destructors are not lowered).',
+   text='the C-library-like primitives are proved equal to their textbook definition for all NUL-terminated strings in objects of any size up to 2^40 bytes (loop contracts, ghost index); object methods as listed in the evidence; bounded stand-ins (all byte values, texts of up to 3..5 bytes, labelled bounded) for StrStr completeness, replace, printable(), contains/containsNoCase/equalsNoCase/startsWith/endsWith; buffer give-back undecided where temporaries occur (destructors of temporaries are not lowered).',
    note='trusted: emitter rules; string allocator seam; ghost-index encoding of universals'),
  'C01': dict(cat='other', ref='DESIGN.md section 4, C01',
-   text='PARTIAL claim, decided by contract proofs: the verdict arithmetic (isFailure <=> failures != 0 or run + ignored == 0), the counters (each count* increments exactly its own counter), addFailure (count + 1, printed once) and the summary line (true counts, OK exactly when not a failure). The sequencing clauses (body only after setup, teardown always, nothing after a failing check, printed exactly once, jump depth restored) live in try/catch + setjmp/longjmp code that CBMC cannot model: undecided, listed in the evidence.',
+   text='PARTIAL claim, decided by contract proofs: the verdict arithmetic (isFailure <=> failures != 0 or run + ignored == 0), the counters (each count* increments exactly its own counter), addFailure (count + 1, printed once) and the summary line (true counts, OK exactly when not a failure). Phase sequencing of Utest::run is proved for BOTH builds (exception build through emitter rule R13b, try/catch/throw at statement granularity): for all 125 outcome combinations of setup/body/teardown (completes, C-style failing check, C++-style failing check, std exception, foreign exception) the body runs exactly when setup completed, teardown runs exactly once afterwards, one failure is recorded per escaped std/foreign exception, and the jump-buffer depth is back at its pre-test value on every path; runOneTestInCurrentProcess is proved to bracket the run with the plugin actions and to put the current test/result back. The setjmp seam is an assumed model (confirmed against the real platform layer by the native driver on all 125 combinations); what happens INSIDE a user-written phase after a failing check is C++/longjmp semantics, not an obligation.',
    note='partial claim; trusted: emitter rules, print stubs; undecided clauses in contracts/C01.undecided.txt'),
  'C02': dict(cat='proof', ref='DESIGN.md section 4, C02',
    text='swap/shuffle/reverse proved for arrays of any size and any value of the rand seam (every swap in range, nothing else written, loops terminate); filter predicate proved against the statement; list walks, relinking and the registry loop as bounded stand-ins (bounds in the evidence).',
@@ -37,10 +37,10 @@ CLAIMS = {
    text='parent-side logic proved for every 32-bit status word and every sequence of fork/waitpid outcomes: exactly one failure per non-zero exit / signal / stop event, fork and wait errors reported once, at most 31 EINTR retries, SIGCONT exactly for stopped children.',
    note='trusted: the kernel reports a killed child as signalled; the child branch (_exit value) is in try/catch code; termination not claimed (a child may stop arbitrarily often)'),
  'C12': dict(cat='other', ref='DESIGN.md section 4, C12',
-   text='PARTIAL claim: numeric parsing (AtoI/AtoU) and the argv index discipline / substring preconditions of the listed helpers are proved; the option table of parse() ("means what the help text says") is undecided.',
+   text='PARTIAL claim: numeric parsing (AtoI/AtoU) and the argv index discipline / substring preconditions of the listed helpers are proved; the meaning of -r and -s (attached value, next-argument value consumed exactly when it is a non-zero number, defaults) is proved against the help text for vectors of 1..2 arguments of up to 5 characters; the option dispatch of parse() is a bounded stand-in (1..2 arguments quick, 3 thorough, handlers as logging stubs). Filter text extraction and the runner side are undecided.',
    note='partial claim; undecided clauses in contracts/C12.undecided.txt'),
  'C14': dict(cat='other', ref='DESIGN.md section 4, C14',
-   text='PARTIAL claim: every write of the fixed 4096-byte report buffer proved in bounds with the text terminated (invariant positions_filled_ <= 4095, write_limit_ <= 4095) for all call sequences of add/setWriteLimit/resetWriteLimit/clear; leak counting and the too-many notice of the report writer proved. The first-difference text of failing checks (TestFailure subclasses) is undecided.',
+   text='PARTIAL claim: every write of the fixed 4096-byte report buffer proved in bounds with the text terminated (invariant positions_filled_ <= 4095, write_limit_ <= 4095) for all call sequences of add/setWriteLimit/resetWriteLimit/clear; leak counting and the too-many notice of the report writer proved. The four failure constructors that print a difference position (CheckEqual, StringEqual, StringEqualNoCase, BinaryEqual) are proved as bounded stand-ins (operands and printable forms of up to 4 characters) to read only the operands\' own bytes and to report the first differing index; printable() is proved (bounded, 3 bytes) to be the textbook escaping. The texts of the other failure classes are undecided.',
    note='partial claim; vsnprintf modelled by a stub body (one arbitrary in-range write + NUL); undecided clauses in contracts/C14.undecided.txt'),
  'C15': dict(cat='proof', ref='DESIGN.md section 4, C15',
    text='the fire predicate proved against the statement (location entries fire on their n-th allocation at that location only, global entries on the global index); pending-list operations as bounded stand-ins; countdown allocator switching and the NULL behaviour of calloc/strdup/strndup proved.',
